@@ -23,7 +23,40 @@ func (r *Run) litSentOn(scope *prog.FuncScope, ch *types.Var) bool {
 			if send, ok := path[i-1].(*ast.SendStmt); ok && send.Value == ast.Expr(scope.Lit) {
 				return prog.SelField(info, send.Chan) == ch
 			}
-			return false
+			// bound to a local first (`next := func() {...}; select { case ch <- next: }`): every use of
+			// that local is the value of a send on ch
+			var v types.Object
+			switch p := path[i-1].(type) {
+			case *ast.AssignStmt:
+				for k, rh := range p.Rhs {
+					if rh == ast.Expr(scope.Lit) && len(p.Lhs) == len(p.Rhs) {
+						v = prog.IdentObj(info, p.Lhs[k])
+					}
+				}
+			case *ast.ValueSpec:
+				for k, rh := range p.Values {
+					if rh == ast.Expr(scope.Lit) && k < len(p.Names) {
+						v = info.Defs[p.Names[k]]
+					}
+				}
+			}
+			lv, ok := v.(*types.Var)
+			if !ok || lv.IsField() || lv.Pkg() == nil || lv.Parent() == lv.Pkg().Scope() {
+				return false
+			}
+			n := 0
+			for _, u := range r.P.Uses(v) {
+				up := r.P.PathTo(r.P.FileAt(u.Ident.Pos()), u.Ident.Pos(), u.Ident.End())
+				if len(up) < 2 {
+					return false
+				}
+				send, isSend := up[len(up)-2].(*ast.SendStmt)
+				if !isSend || send.Value != ast.Expr(u.Ident) || prog.SelField(info, send.Chan) != ch {
+					return false
+				}
+				n++
+			}
+			return n > 0
 		}
 	}
 	return false
